@@ -50,7 +50,7 @@ P = {
          "state replies that fail to parse are covered by C09's theorems and the per-run oracle, not by the exactness theorems"),
  "C17": ("proof", "Theorems over all action sequences and port lists of the lifecycle model: running iff all ports held, nothing held when not "
          "running (also after a failed start), delivery iff held; the same for any number of bridge objects in one process, with "
-         "non-interference between objects (start, failed start, stop of another object change nothing); per run every action sequence of length <= 3 on real UDP sockets with "
+         "non-interference between objects (start, failed start, stop of another object change nothing); and C17_refines_history: for every duplicate-free non-empty port list and action sequence the model's observations, flag and port table are exactly those of the property's own reading of the history (Spec/BridgeHistory.v: start raises and changes nothing when running or a port is taken, stop always ends in not-running with every port given back, a stopped bridge starts again), which is also the extracted oracle every observed trace is compared with; per run every action sequence of length <= 3 on real UDP sockets with "
          "probe binds.", "5 C17", "partial: deferred socket release timing is asyncio's and only exercised"),
  "C18": ("proof", "Theorems over all action sequences of the client lifecycle model (C18_lifecycle; C18_connected_exactly_between: the model refines the property's own reading of a history - connected exactly after a successful connect not yet followed by a disconnect or the end of an async context, the device then holds exactly one open connection, every other accepted connection was seen as end-of-stream); per run every sequence of length <= 3 for both API "
          "classes against a fake device observing the flag, open connections and EOFs.", "5 C18", "partial: GC of abandoned sockets and peer resets are outside the model"),
